@@ -46,7 +46,8 @@ type WAL struct {
 
 func Create(dir string) (*WAL, error) {
 	createdAt := time.Now()
-	version := fmt.Sprintf("%s-%d", createdAt.Format("20060102150405"), createdAt.Nanosecond())
+	// versions are compared as text: the nanosecond part must have a fixed width
+	version := fmt.Sprintf("%s-%09d", createdAt.Format("20060102150405"), createdAt.Nanosecond())
 
 	name := path.Join(dir, fmt.Sprintf("wal-%s.log", version))
 
